@@ -123,3 +123,9 @@ package language
 //@   ensures[C09] LInv(l) && l.position >= old(l.position)
 //@   ensures[C09] old(l.position) < len(l.input) ==> l.position > old(l.position)
 //@   ensures[C09] old(l.position) >= len(l.input) ==> result.Type == EOF
+
+// ---- C09: strictness - a condition is ONE expression ---------------------------------------------------------
+// (parsed is the number of expressions the loop consumed; more than one without any other error is rejected)
+//@ func (*Parser).ParseConditionalExpression
+//@   partial
+//@   ensures[C09] len(p.errors) == 0 ==> parsed <= 1
